@@ -2,7 +2,8 @@
 M: V2Pool (token pool, WaitGroup, mutex-protected append): NoLostAppend, BoundedTasks, termination for tasks >= 1; an append that
    is not exclusive must lose matches; tasks = 0 never terminates (outside the statement's 1..N).
 T: the real binary, built from the current tree (plus a -race build), over seeded file sets x flags x -tasks {1,2,3,7,16,1000};
-   stdout / JSON / exit status validated by TLC (TraceCLI.CLIReturn) against in-process Match on the same bytes."""
+   stdout / JSON / exit status validated by TLC (TraceCLI.CLIReturn) against in-process Match on the same bytes.
+G: V2CLIScope (expandFiles: arguments, walk order, -ignore_paths_re) and V2CLILines (readFileLines) -- every enumerated case through the real functions."""
 import os, subprocess, time
 from lib import vlib
 from lib.vlib import tlc, tlc_require_ok, go_overlay_test, read_ndjson, sub
@@ -41,6 +42,27 @@ def run():
         if not nv.violated or want not in nv.tail:
             raise vlib.Inconclusive("%s: expected a violation of %s: %s" % (cfg, want, nv.tail[-1200:]))
         acc.tlc.append({"cfg": cfg, "expected_violation": want})
+    # which files a run covers (V2CLIScope: arguments, Walk order, -ignore_paths_re on directory names / whole file paths) and which text
+    # the JSON report quotes (V2CLILines: readFileLines): M on the rule, G every case through the real expandFiles / readFileLines
+    for mod, pkg, src, test, th_sub in (("V2CLIScope", "v2/tools/identify_license", "cli/scope_driver_test.go", "TestVerifScopeReplay", ("MaxArgs = 2", "MaxArgs = 3")),
+                                        ("V2CLILines", "v2/tools/identify_license/results", "cli/lines_driver_test.go", "TestVerifLinesReplay", ("MaxLen = 5", "MaxLen = 6"))):
+        def text(cfg):
+            t = open(os.path.join(vlib.SPECS, cfg)).read()
+            return t.replace(*th_sub) if (th and th_sub) else t
+        r = tlc_require_ok(tlc(mod, mod + ".cfg", timeout=1800, workers=4, files={mod + ".cfg": text(mod + ".cfg")}), mod); acc.add_tlc(r, mod + ".cfg")
+        gen = tlc_require_ok(tlc(mod, mod + "Gen.cfg", timeout=1800, workers=2, files={mod + "Gen.cfg": text(mod + "Gen.cfg")}), mod + " vectors"); acc.add_tlc(gen, mod + "Gen.cfg")
+        o = os.path.join(sub("out"), mod + ".ndjson")
+        if os.path.exists(o):
+            os.remove(o)
+        rc, txt, _ = go_overlay_test(pkg, ["common/util_test.go", src], "^%s$" % test, env={"VERIF_IN": gen.outpath, "VERIF_OUT": o}, timeout=1800)
+        rr = read_ndjson(o)
+        sm = [x for x in rr if x.get("kind") == "summary"]
+        if vlib.build_failed(txt) or not sm or sm[0]["vectors"] == 0:
+            raise vlib.Inconclusive("%s replay driver failed:\n%s" % (mod, txt[-2500:]))
+        acc.evaluations += sm[0]["vectors"]; acc.extra[mod + "_replay"] = sm[0]
+        for x in rr:
+            if x.get("kind") == "mismatch":
+                v.fail(mod + "-replay", x)
     cli, cli_race = build(False), build(True)
     out = os.path.join(sub("out"), "cli.ndjson")
     rc, txt, _ = go_overlay_test("v2/tools/identify_license/backend", ["common/util_test.go", "backend/cli_driver_test.go"], "^TestVerifCLI$",
